@@ -180,7 +180,7 @@ func GenKey(t *rapid.T) []byte {
 	switch rapid.IntRange(0, 7).Draw(t, "keyk") {
 	case 6:
 		// long names: the 16-bit length has a non-zero high byte; first bytes that mean something elsewhere in the format
-		n := rapid.SampledFrom([]int{255, 256, 257, 511, 512, 513, 768, 1024, 4096}).Draw(t, "keylen")
+		n := rapid.SampledFrom([]int{255, 256, 257, 511, 512, 513, 768, 1024, 4096, 32767, 32768, 65533, 65534, 65535}).Draw(t, "keylen")
 		b := bytes.Repeat([]byte{'k'}, n)
 		b[0] = rapid.SampledFrom([]byte{0x09, 0x00, 'k', 0x03, 0x08}).Draw(t, "keyfirst")
 		return b
